@@ -15,10 +15,10 @@ from vfy import lang
 
 LEVEL = "fault_enumeration"
 DECIDING = ["abort_points", "line_events"]
-MIN_DECIDED_RATIO = 0.8
+MIN_DECIDED_RATIO = 0.65  # an abort point is undecided when the member never reaches it: outside its scan, or (projection kind) on a line that does not match
 RULE = (
     "for generated groups of 1-4 members and files of 2-8 lines: every (member, line) abort point x fault kind {argument rejected, "
-    "exception inside the function, failure reported as a chained exception} x the six run methods, each followed by one normal run on the same instance. Non-trivial: every case "
+    "exception inside the function, failure reported as a chained exception, failure outside the match part (line too short for the member's collect() projection)} x the six run methods, each followed by one normal run on the same instance. Non-trivial: every case "
     "(an abort happens in each); distinct = distinct (group size, member index, line, kind, method, member skeletons)."
 )
 ASSUMPTIONS = [
@@ -31,9 +31,12 @@ FAULT_COMP = {
     "pyexc": ["fn", "gt", [["fn", "mod", [["int", 7], ["hdr", "4"]], []], ["int", -1]], []],
     # a failure the function reports with its cause attached (raise ... from ...): a chained exception
     "chained": ["fn", "date", [["hdr", "5"], ["str", "%Y-%m-%d"]], []],
+    # a failure outside any match component: the member projects its collected lines onto columns 0 and 5 and the
+    # fault line is too short for that (raised by the run loop after the line has matched)
+    "projection": ["fn", "collect", [["int", 0], ["int", 5]], []],
 }
-FAULT_CELL = {"argtype": "zz", "pyexc": "0", "chained": "not-a-date"}
-FAULT_COL = {"argtype": 4, "pyexc": 4, "chained": 5}
+FAULT_CELL = {"argtype": "zz", "pyexc": "0", "chained": "not-a-date", "projection": None}
+FAULT_COL = {"argtype": 4, "pyexc": 4, "chained": 5, "projection": 5}
 
 
 def plan(tier, seed):
@@ -72,7 +75,10 @@ def check_abort(case, agg):
     members, rows_clean, i, line, kind, method = case["members"], case["rows"], case["member"], case["line"], case["kind"], case["method"]
     n = len(members)
     rows = [list(r_) for r_ in rows_clean]
-    rows[line][FAULT_COL[kind]] = FAULT_CELL[kind]
+    if kind == "projection":
+        rows[line] = rows[line][:5]
+    else:
+        rows[line][FAULT_COL[kind]] = FAULT_CELL[kind]
     progs = [dict(p) for p in members]
     fm = dict(progs[i])
     comps = list(fm["comps"])
@@ -88,7 +94,7 @@ def check_abort(case, agg):
     cps.add_file(cs, "clean", rows_clean, srcname="clean.csv")
     texts = [cps.member_text(p, ident=f"m{j}") for j, p in enumerate(progs)]
     cs.paths_manager.add_named_paths(name="grp", paths=texts)
-    follow_group = "grp" if case.get("follow", 0) % 2 == 0 else "other"
+    follow_group = "grp" if (case.get("follow", 0) % 2 == 0 and kind != "projection") else "other"
     cs.paths_manager.add_named_paths(name="other", paths=[cps.member_text(p, ident=f"m{j}") for j, p in enumerate(members)])
     inputs_before = cps.tree("inputs")
     w = {"members": texts, "rows": rows, "method": method, "abort_member": i, "abort_line": line, "kind": kind, "csvpaths_policy": cps_policy}
@@ -97,6 +103,11 @@ def check_abort(case, agg):
     agg.count("abort_points")
     # member i only reaches the fault line if its scan includes it and it was not stopped before
     reached = any(ev["id"] and ev["pln"] == line and ev.get("exc") for ev in rec.lines)
+    if kind == "projection" and (exc is None or (method in cps.BYLINE and i != n - 1)):
+        # the fault line did not match in that member, or the method does not project lines; in breadth-first runs the
+        # projected line is what the members *after* the projecting one are handed (observation O11), so only a
+        # projecting member placed last aborts the run at the intended point
+        return "undecided", None
     if exc is None:
         if not reached:
             return "undecided", None
@@ -159,7 +170,7 @@ def check_abort(case, agg):
             r_ = results[j] if j < len(results) else None
             if r_ is None:
                 continue
-            if method == "collect_by_line":
+            if method == "collect_by_line" and not (kind == "projection" and j == i):
                 coll = [ev["line"] for ev in by_id.get(id(r_.csvpath), []) if ev["ret"]]
                 dp = os.path.join(rdir, f"m{j}", "data.csv")
                 disk = cps.read_csv(dp) if os.path.exists(dp) else []
@@ -214,8 +225,11 @@ def cases_for_group(seed, shard, gi, methods):
     k = 0
     for i in range(n):
         for line in range(0, nlines):
-            for kind in ("argtype", "pyexc", "chained"):
+            for kind in ("argtype", "pyexc", "chained", "projection"):
                 method = methods[k % len(methods)]
+                if kind == "projection":
+                    # only the methods that hand matched lines on through the member's projection can abort there
+                    method = (cps.SERIAL + (["collect_by_line"] if i == n - 1 else []))[k % (4 if i == n - 1 else 3)]
                 k += 1
                 yield {"members": members, "rows": rows, "member": i, "line": line, "kind": kind, "method": method, "pos": r.randint(0, 3), "follow": k}
 
@@ -254,4 +268,4 @@ def replay(case, agg):
 
 
 def finish(m, tier):
-    return {"exhaustive": True, "exhaustive_scope": "every (member, line) abort point x the three fault kinds of each generated group; the run method rotates over the six methods across abort points"}
+    return {"exhaustive": True, "exhaustive_scope": "every (member, line) abort point x the four fault kinds of each generated group; the run method rotates over the six methods across abort points"}
